@@ -14,7 +14,7 @@ LEVEL = 'fault_enumeration'
 RUNS = {'quick': 361 * 6, 'thorough': 361 * 60}
 CHUNK = 20
 RECHECK_MOD = 59
-PROBES = ['errno_sweep', 'signal_sweep', 'family_sweep', 'kind_sweep', 'sockopt_levels', 'pipe_variant', 'large_error_word',
+PROBES = ['small_word_windows', 'host_environment_swapped', 'errno_sweep', 'signal_sweep', 'family_sweep', 'kind_sweep', 'sockopt_levels', 'pipe_variant', 'large_error_word',
           'out_of_domain_on_some_host', 'spot_checked', 'formatted_traces_path']
 RULE = ('one run = one BSD decoder (run index mod number of BSD decoders) x 24 error words drawn from 0..260 and a few huge values '
         '(all of 0..127 for every 12th run), plus full sweeps of signals 0..40, address families 0..45, socket kinds 0..8 and option '
@@ -35,7 +35,7 @@ def generate(rng, index, tier):
                                                                               rng.pick([1 << 31, 1 << 32, (1 << 64) - 1, 4096])]))
     if index % 12 == 0:
         errs = sorted(set(errs) | set(range(0, 128)))
-    return {'decoder': name, 'errs': errs, 'arg_seed': rng.randrange(1 << 30), 'formatted': index % 9 == 0}
+    return {'decoder': name, 'errs': errs, 'arg_seed': rng.randrange(1 << 30), 'formatted': index % 9 == 0, 'small': 24, 'env': index % 7 == 1}
 
 
 def _events(scn):
@@ -62,6 +62,14 @@ def _events(scn):
         e = list(base_e)
         e[0] = err
         window(list(base_s), e, 'errno=%d' % err, 'errno', err)
+    # windows whose START words are all small numbers (what signal numbers, families, namespaces, option levels look like):
+    # whatever a decoder does with them, the text may not depend on the host
+    for j in range(scn.get('small', 0)):
+        s = [r.randrange(0, 41) for _ in range(4)]
+        for where, idx, kind_, spec in domains.DOMAINS.get(name, ()):
+            if where == 'S':
+                s[idx] = base_s[idx]
+        window(s, [r.pick([0, 0, 2, 13]), 0, 0, 0], 'small=%r' % (s,), 'small', j)
     if hf == 'signal':
         for sig in list(range(0, 41)) + [63, 64, 65, 66, 127, 128]:
             s = list(base_s)
@@ -95,6 +103,8 @@ def execute(scn):
     name = scn['decoder']
     hf = HOST_FIELD.get(name)
     bump('probe:errno_sweep')
+    if scn.get('small'):
+        bump('probe:small_word_windows')
     if hf == 'signal':
         bump('probe:signal_sweep')
     if hf == 'socket':
@@ -197,6 +207,38 @@ def execute(scn):
             outs[h] = items if exc is None else ['raised ' + type(exc).__name__]
         if len({tuple(v) for v in outs.values()}) > 1:
             viols.append({'tag': 'host-dependent-text', 'sig': 'formatted_traces', 'detail': repr(outs)[:600]})
+    if scn.get('env'):
+        # the rest of the host: time zone, and a system-wide trace.codes that only some hosts ship.  A v3 dump with one log
+        # record, the bundled code table as the tool loads it, and the event listing must come out the same everywhere.
+        bump('probe:host_environment_swapped')
+        import io
+        from ..rng import Rng
+        r5 = Rng(scn['arg_seed'])
+        evs_l, strs = worlds.gen_logs(r5, 2, [900])
+        wspec = {'version': 3, 'tmap': [[900, 5, 'proc', '']], 'chunks': [], 'filler1': '', 'filler2': '', 'gaps': [], 'cpu_info': {}, 'plist_fmt': 'binary',
+                 'pad_last': True, 'blocks': [{'kind': 'logs', 'payload': {'Events': evs_l}}, {'kind': 'strings', 'payload': {'StringIndex': {s_: i for i, s_ in enumerate(strs)}}}]}
+        recs0 = [r_ for _l, _k, _n, rr in evs[:2] for r_ in rr]
+        for j, r_ in enumerate(recs0):
+            r_['ts'] = 0x2001 + 3 * j
+        data3, _ = worlds.build_file(wspec, [kernel.to_bytes(r_) for r_ in recs0] + [kernel.records.pack(0x3001, [1, 2, 3, 4], 900, 0xf1230001)])
+        outs = {}
+        for h in hosts:
+            with hostmod.host_environment(h):
+                t = hostmod.tool_for(h)
+                p = t['pk'].PyKdebugParser()
+                p.color = False
+                logs_, e1 = common.drain(lambda: p.formatted_logs(io.BytesIO(data3)))
+                kev_, e2 = common.drain(lambda: p.formatted_kevents(io.BytesIO(data3)))        # default (bundled) code table
+                tr_, e3 = common.drain(lambda: p.formatted_traces(io.BytesIO(data3)))
+                outs[h] = [logs_, kev_, tr_, [type(x).__name__ for x in (e1, e2, e3) if x]]
+        ref_h = hosts[0]
+        for h in hosts[1:]:
+            for vi, view in enumerate(('formatted_logs', 'formatted_kevents', 'formatted_traces')):
+                if outs[h][vi] != outs[ref_h][vi]:
+                    a = next(((x, y) for x, y in zip(outs[ref_h][vi], outs[h][vi]) if x != y), (len(outs[ref_h][vi]), len(outs[h][vi])))
+                    viols.append({'tag': 'host-dependent-text', 'sig': 'environment:' + view,
+                                  'detail': '%s differs between host %s and host %s (time zone / system files): %r' % (view, ref_h, h, a)})
+                    break
     seen = set()
     uniq = []
     for v in viols:
